@@ -55,29 +55,26 @@ theorem too_many_mutual_iff (cfg : Config) (s : State) (p : Peer) (h : Hash) (nb
     (addPending cfg s p h nbrs).2 = .tooManyMutual ↔
       ((count s h : Int) ≠ cfg.max ∧ lookup s h p = none ∧ cfg.maxMutual < (numMutual s h nbrs : Int)) := by
   unfold addPending
-  split
-  · rename_i hc; simp [hc]
-  · rename_i hc
-    split
-    · rename_i hl
-      split
-      · rename_i hm; simp [hc]; omega
-      · rename_i hm; simp [hc]; omega
-    · rename_i hl; simp
-    · rename_i hl; simp
+  by_cases hc : (count s h : Int) = cfg.max
+  · simp [hc]
+  · cases hl : lookup s h p with
+    | none =>
+      by_cases hm : (numMutual s h nbrs : Int) > cfg.maxMutual
+      · simp [hc, hm]
+      · simp [hc, hm]
+    | some st => cases st <;> simp [hc]
 
 theorem mutual_refused (cfg : Config) (s : State) (p : Peer) (h : Hash) (nbrs : List Peer)
     (hm : cfg.maxMutual < (numMutual s h nbrs : Int)) :
     (addPending cfg s p h nbrs).2 ≠ .ok ∧ (addPending cfg s p h nbrs).1 = s := by
   unfold addPending
-  split
-  · simp
-  · split
-    · split
-      · simp
-      · rename_i hn; omega
-    · simp
-    · simp
+  by_cases hc : (count s h : Int) = cfg.max
+  · simp [hc]
+  · cases hl : lookup s h p with
+    | none =>
+      have hm' : (numMutual s h nbrs : Int) > cfg.maxMutual := hm
+      simp [hc, hm']
+    | some st => cases st <;> simp [hc]
 
 /-- `numMutual` counts the neighbours that are pending or active for the torrent -/
 theorem numMutual_spec (s : State) (h : Hash) (nbrs : List Peer) :
@@ -102,17 +99,15 @@ theorem add_ok_iff (cfg : Config) (s : State) (p : Peer) (h : Hash) (nbrs : List
       ((count s h : Int) ≠ cfg.max ∧ lookup s h p = none ∧ (numMutual s h nbrs : Int) ≤ cfg.maxMutual)) ∧
     ((addPending cfg s p h nbrs).2 = .ok → lookup (addPending cfg s p h nbrs).1 h p = some .pending) := by
   unfold addPending
-  split
-  · rename_i hc; simp [hc]
-  · rename_i hc
-    split
-    · rename_i hl
-      split
-      · rename_i hm; simp [hc]; omega
-      · rename_i hm
-        refine ⟨by simp [hc]; omega, fun _ => get_put_same s h p .pending⟩
-    · simp
-    · simp
+  by_cases hc : (count s h : Int) = cfg.max
+  · simp [hc]
+  · cases hl : lookup s h p with
+    | none =>
+      by_cases hm : (numMutual s h nbrs : Int) > cfg.maxMutual
+      · simp [hc, hm]
+      · simp [hc, hm]
+        exact ⟨by omega, get_put_same s h p .pending⟩
+    | some st => cases st <;> simp [hc]
 
 /-- **C16 (4)** `DeleteActive(c)` never removes the entry of another connection `c'` — in
 particular not of a newer connection to the same peer for the same torrent — … -/
@@ -129,7 +124,7 @@ theorem delete_active_identity (s : State) (c c' : Conn) (hne : c.id ≠ c'.id)
       by_cases hk : c'.hash = c.hash ∧ c'.peer = c.peer
       · rw [hk.1, hk.2, hl] at hc'
         simp at hc'
-        omega
+        exact absurd (hid'.symm.trans hc') hne
       · rw [get_del_other s c.hash c.peer c'.hash c'.peer hk]; exact hc'
   · exact hc'
 
@@ -292,7 +287,7 @@ theorem blacklisted_iff (s : State) (p : Peer) (h : Hash) :
   unfold blacklisted
   cases hf : findB s h p with
   | none => simp
-  | some e => simp [BEntry.live]; omega
+  | some e => simp [BEntry.live]
 
 /-- The hypothesis `0 ≤ Max` of `conn_limits` is necessary: a negative maximum is never reached. -/
 theorem negative_max_unbounded :
